@@ -679,6 +679,11 @@ impl<'i, I: Interner> DisplayUnsat<'i, I> {
         let installable_nodes = &self.installable_set;
         let mut reported: HashSet<SolvableOrRootId> = HashSet::new();
 
+        // The candidates on the branch that is currently being displayed (with their
+        // depth). Used to avoid expanding a candidate again below itself, which would
+        // never terminate if the conflict graph contains a dependency cycle.
+        let mut branch: Vec<(usize, NodeIndex)> = Vec::new();
+
         // Note: we are only interested in requires edges here
         let indenter = Indenter::new(top_level_indent);
         let mut stack = top_level_edges
@@ -869,6 +874,17 @@ impl<'i, I: Interner> DisplayUnsat<'i, I> {
                     } else {
                         "<root>".to_string()
                     };
+
+                    let depth = indenter.levels.len();
+                    branch.retain(|&(d, _)| d < depth);
+                    if branch.iter().any(|&(_, nx)| nx == candidate) {
+                        writeln!(
+                            f,
+                            "{indent}{version}, which is already reported above (cyclic dependency)."
+                        )?;
+                        continue;
+                    }
+                    branch.push((depth, candidate));
 
                     let excluded = graph
                         .edges_directed(candidate, Direction::Outgoing)
